@@ -68,6 +68,10 @@ def int_token(rng, base, maxbits):
             value = value * base + dgt
     chars = [ALPHA[dgt] if rng.random() < 0.5 else ALPHA[dgt].upper() for dgt in ds]
     body = with_separators(rng, chars)
+    if base != 10 and rng.random() < 0.25 and len(ds) + 6 <= maxdigits:
+        # redundant leading zeros, with separators inside the run and right after it (same value)
+        zeros = rng.randint(1, 5)
+        body = "'".join('0' * n for n in ([zeros] if rng.random() < 0.3 else [max(1, zeros - 1), 1])) + ("'" if rng.random() < 0.7 else '') + body
     prefix = PREFIX[base]
     if base == 16 and rng.random() < 0.5:
         prefix = '0X'
@@ -173,6 +177,15 @@ def emit(seed, n_tokens, n_consts):
         if abs(v) < (1 << 31):
             add('ctad', str(v), '[] { cnl::scaled_integer x = %s; return x; }()' % cst, v)
             add('ctad_elastic', str(v), '[] { cnl::elastic_integer x = %s; return x; }()' % cst, v)
+    # constants whose template argument has an unsigned type, top bit of that type set or not
+    for lit, v in [('0xC0000001u', 0xC0000001), ('0xFFFFFFFFu', 0xFFFFFFFF), ('0x80000000u', 0x80000000), ('0x7FFFFFFFu', 0x7FFFFFFF), ('3000000000u', 3000000000),
+                   ('0xC000000000000001ull', 0xC000000000000001), ('0xFFFFFFFFFFFFFFFFull', 2 ** 64 - 1), ('0x8000000000000000ull', 2 ** 63), ('12345ull', 12345),
+                   ('static_cast<unsigned char>(200)', 200), ('static_cast<unsigned short>(65535)', 65535), ('0u', 0), ('1u', 1)]:
+        cst = 'cnl::constant<%s>{}' % lit
+        ud, tb = used_digits(v), trailing_bits(v)
+        add('make_elastic_integer', 'unsigned-typed ' + lit, 'cnl::make_elastic_integer(%s)' % cst, v, digits=max(ud, 1) if v else -1)
+        add('make_elastic_scaled_integer', 'unsigned-typed ' + lit, 'cnl::make_elastic_scaled_integer(%s)' % cst, v, digits=max(ud - tb, 1), exponent=tb, radix=2)
+        add('make_scaled_integer', 'unsigned-typed ' + lit, 'cnl::make_scaled_integer(%s)' % cst, v, exponent=tb, radix=2)
     return regs
 
 
